@@ -69,5 +69,22 @@ theorem collider_spec_of (ell : Pose ℝ → V → Except Err (Box ℝ)) (P : Po
     simp only [Collider.aabb, hb]
     rfl
 
+/-- the code as it is never reaches an error branch (`sqrtNeg`, `divZero`, `badInput`) on a
+well-formed collider — not even for rotated ellipsoids, where the returned box is wrong -/
+theorem collider_asIs_total : ∀ c : Collider ℝ, c.WF → ∃ b, c.aabb ellipsoidAabb_asIs = .ok b
+  | .sphere c r, _ => ⟨_, rfl⟩
+  | .hull vs, h => let ⟨b, hb, _⟩ := hullAabb_spec vs h; ⟨b, hb⟩
+  | .box A size, h => let ⟨b, hb, _⟩ := boxAabb_spec A size h.2.1.le h.2.2.1.le h.2.2.2.le; ⟨b, hb⟩
+  | .mesh A vs, h => let ⟨b, hb, _⟩ := meshAabb_spec A vs h.2; ⟨b, hb⟩
+  | .capsule A r hh, _ => ⟨_, rfl⟩
+  | .ellipsoid A radii, h => ⟨_, ellipsoidAabb_asIs_eq A h.1 radii h.2.1 h.2.2.1 h.2.2.2⟩
+  | .cylinder A r l, h => let ⟨b, hb, _⟩ := cylinderAabb_spec A h.1 h.2.1.le h.2.2.le; ⟨b, hb⟩
+  | .disk c r n, h => let ⟨b, hb, _⟩ := diskAabb_spec c h.1.le n h.2; ⟨b, hb⟩
+  | .ellipse c a0 a1 r0 r1, _ => let ⟨b, hb, _⟩ := ellipseAabb_spec c a0 a1 r0 r1; ⟨b, hb⟩
+  | .cone A r hh, _ => ⟨_, rfl⟩
+  | .margin inner m, h => by
+    obtain ⟨b, hb⟩ := collider_asIs_total inner h.1
+    exact ⟨inflate b m, by simp only [Collider.aabb, hb]; rfl⟩
+
 end Containment
 end D3
